@@ -338,6 +338,159 @@ def oracle_stream(pid, sc, ob):
     return None
 
 
+# ---------------------------------------------------------------- Accept-Encoding negotiation and streaming_body headers
+def py_should_gzip(value):
+    """RFC 7231 5.3.4 preference of gzip vs identity, written from C16.  None = the value is outside the grammar the
+    oracle judges (ungrammatical weight, upper-case tokens, repeated codings): no expectation."""
+    if value is None:
+        return False
+    q = {}
+    for el in value.split(","):
+        el = el.strip(" \t")
+        if el == "":
+            continue
+        coding, sep, par = el.partition(";")
+        coding = coding.strip(" \t")
+        if not _re.fullmatch(r"[a-z0-9*!#$%&'+.^_`|~-]+", coding):
+            return None
+        w = 1000
+        if sep:
+            m = _re.fullmatch(r"q=(0(\.\d{0,3})?|1(\.0{0,3})?)", par.strip(" \t"))
+            if not m:
+                return None
+            t = m.group(1)
+            frac = (t.split(".")[1] if "." in t else "").ljust(3, "0")
+            w = int(t[0]) * 1000 + int(frac)
+        if coding in q:
+            return None
+        q[coding] = w
+    gz = q.get("gzip", q.get("*"))
+    if gz is None or gz == 0:
+        return False
+    ident = q.get("identity", q.get("*", 1))      # unlisted identity: the least-preferred acceptable coding
+    return gz >= ident
+
+
+def fam_accept_encoding():
+    weights = ["", ";q=0", ";q=1", ";q=0.5", ";q=0.001", ";q=0.25", "; q=0.5", " ;q=0", " ; q=0.75", ";q=1.000", ";q=0."]
+    codings = ["gzip", "identity", "*", "br"]
+    els = [c + w for c in codings for w in weights]
+    vals = [None, "", " ", ","]
+    vals += els
+    for sep in (",", ", ", " , "):
+        for a in els:
+            for b in els:
+                if a.split(";")[0].strip() != b.split(";")[0].strip():
+                    vals.append(a + sep + b)
+    tri = [x for x in itertools.product(["gzip", "gzip;q=0.5", "gzip ;q=0", "gzip;q=0"], ["identity;q=0", "identity;q=0.5", "identity ;q=0.75", "identity"], ["*", "*;q=0", "* ;q=0.6", "br;q=1"])]
+    for t in tri:
+        for perm in itertools.permutations(t):
+            vals.append(", ".join(perm))
+    vals += ["gzip;q=2", "gzip;q=0.5555", "gzip;x=1", "gzip;q=", "gzip;", ";q=1", "gzip;q=1.001", "GZIP", "gzip;Q=1", "gzip\t;\tq=0", "\tgzip\t", "gzip,", ",gzip", "gzip,,identity;q=0"]
+    out = []
+    for k, v in enumerate(vals):
+        out.append({"id": "ae%d" % k, "kind": "build", "chunk": 4, "ae": v, "level": 6, "method": "GET", "ops": ["G"]})
+    return out
+
+
+def fam_build():
+    out = []
+    k = 0
+    for ae in (None, "gzip", "identity", "gzip;q=0", "*", "gzip, identity;q=0.5", "br", "gzip ;q=0", "", "gzip;q=0.5, identity", "*;q=0", "gzip;q=bogus"):
+        for level in (0, 1, 6, 9):
+            k += 1
+            base = {"kind": "build", "chunk": 3, "ae": ae, "level": level, "ops": ["G", "L68656c6c6f20776f726c64", "F", "X", "P", "P", "P", "P", "P", "P", "P", "P"]}
+            out.append(dict(base, id="bd%d" % k, method="GET"))
+            out.append(dict(base, id="bd%d:h" % k, method="HEAD"))
+            out.append(dict(base, id="bd%d:p" % k, method="POST"))
+    return out
+
+
+def oracle_build(pid, sc, ob, pair=None):
+    """streaming_body / should_gzip oracles (C15, C16, C17) on one observed run; `pair` = (scenario, observation) of the same request sent with GET."""
+    if ob["panic"] is not None:
+        return "panic: " + ob["panic"] if pid in ("C16", "C17") else None
+    hd = {}
+    for k_, v_ in ob["headers"]:
+        hd.setdefault(k_, []).append(v_)
+    res = ob["results"]
+    g = next((r for r in res if r in ("g0", "g1")), None)
+    if pid == "C16":
+        want = py_should_gzip(sc.get("ae"))
+        if want is not None and g is not None and (g == "g1") != want:
+            return "should_gzip(%r) returned %s, RFC 7231 5.3.4 preference says %s" % (sc.get("ae"), g == "g1", want)
+        return None
+    ce = hd.get("content-encoding", [])
+    if pid == "C17":
+        if b"accept-encoding" not in [v.lower() for v in hd.get("vary", [])]:
+            return "response without Vary: accept-encoding"
+        if g is not None:
+            want_ce = [b"gzip"] if (g == "g1" and sc.get("level", 6) > 0) else []
+            if ce != want_ce:
+                return "Content-Encoding %r but should_gzip=%s and gzip level %d" % (ce, g == "g1", sc.get("level", 6))
+        if not ob["nowriter"]:
+            written = b"".join(bytes.fromhex(o[1:]) for o, r in zip(sc["ops"], res) if o[0] == "L" and r == "lo")
+            data, ended = b"", False
+            for o, r in zip(sc["ops"], res):
+                if o[0] == "P" and ">" in r:
+                    ev = r.split(">", 1)[1].split("!")[0]
+                    if ev[0] == "D":
+                        data += bytes.fromhex(ev[1:])
+                    elif ev[0] == "N":
+                        ended = True
+            if ended and written:
+                if ce == [b"gzip"]:
+                    import zlib
+                    try:
+                        plain = zlib.decompress(data, 31)
+                    except Exception as e:
+                        return "Content-Encoding: gzip but the body is not gzip data (%s)" % e
+                    if plain != written:
+                        return "gzip body does not decode to the written bytes"
+                elif data != written:
+                    return "no Content-Encoding: gzip, yet the body is not the written bytes verbatim"
+        return None
+    if pid == "C15":
+        if sc.get("method") == "HEAD":
+            if not ob["nowriter"]:
+                return "streaming_body returned a writer for HEAD"
+            if pair is not None and pair[1]["panic"] is None:
+                if sorted(pair[1]["headers"]) != sorted(ob["headers"]) or pair[1]["status"] != ob["status"]:
+                    return "streaming_body: HEAD response headers %r differ from GET's %r" % (ob["headers"], pair[1]["headers"])
+        return None
+    return None
+
+
+def judge(pid, test, scs, lines):
+    """First scenario of one native run that violates property `pid`: (scenario, observation line, why, paired scenario) or None."""
+    is_stream = test == "stream_witness"
+    if is_stream:
+        obs = {sc["id"]: (sc, parse_stream_obs(ln), ln) for sc, ln in zip(scs, lines)}
+        for i, (sc, o, ln) in obs.items():
+            if sc.get("kind") == "build":
+                pr = obs.get(i[:-2]) if i.endswith(":h") else None
+                why = oracle_build(pid, sc, o, (pr[0], pr[1]) if pr else None)
+                if why:
+                    return sc, ln, why, (pr[0] if pr and pid == "C15" else None)
+            else:
+                why = oracle_stream(pid, sc, o)
+                if why:
+                    return sc, ln, why, None
+        return None
+    if pid == "C15":
+        byid = {sc["id"]: (sc, parse_obs(ln)) for sc, ln in zip(scs, lines)}
+        for i, (sc, o) in byid.items():
+            if i + ":h" in byid:
+                why = oracle_pair_c15(sc, o, *byid[i + ":h"])
+                if why:
+                    return byid[i + ":h"][0], None, why, sc
+    for sc, ln in zip(scs, lines):
+        why = all_serve_oracles(pid, sc, parse_obs(ln))
+        if why:
+            return sc, ln, why, None
+    return None
+
+
 def fam_stream_ops(maxlen=5, chunks=(1, 2, 3)):
     out = []
     k = 0
@@ -366,6 +519,9 @@ def fam_stream_disconnect():
 FAMILIES[("chunker", "Reader::drop")] = ("stream_witness", fam_stream_disconnect)
 FAMILIES[("chunker", "Reader")] = ("stream_witness", lambda: fam_stream_ops(5, (2, 3)) + fam_stream_ops(4, (1,)))
 FAMILIES[("chunker", "Writer")] = FAMILIES[("chunker", "Reader")]
+FAMILIES[("build", "")] = ("stream_witness", fam_build)
+FAMILIES[("gz", "")] = ("stream_witness", fam_accept_encoding)
+FAMILIES[("gz", "should_gzip")] = ("stream_witness", fam_accept_encoding)
 
 
 
@@ -664,6 +820,20 @@ def oracle_whole(pid, sc, ob):
             m = _re.fullmatch(rb"bytes (\d+)-(\d+)/(\d+)", cr)
             if m and body != entity_bytes(int(m.group(1)), int(m.group(2)) + 1):
                 return "206 body is not entity bytes %s" % cr.decode()
+        if st == 206 and cr is None:
+            # multipart: every part carries exactly the entity bytes its own Content-Range line names
+            pos = 0
+            while body[pos:pos + 7] == b"\r\n--B\r\n":
+                he = body.find(b"\r\n\r\n", pos + 7)
+                if he < 0:
+                    return None
+                m = _re.search(rb"Content-Range: bytes (\d+)-(\d+)/(\d+)\r\n", body[pos + 7:he + 2])
+                if not m:
+                    return None
+                a, e = int(m.group(1)), int(m.group(2)) + 1
+                if e < a or body[he + 4:he + 4 + (e - a)] != entity_bytes(a, e):
+                    return "multipart part headed `bytes %d-%d` does not carry those entity bytes" % (a, e - 1)
+                pos = he + 4 + (e - a)
         return None
     if pid == "C06" and st == 206 and cr is None:
         ct = hd.get("content-type", [b""])[-1]
@@ -752,6 +922,13 @@ def fam_glue():
                     base = {"headers": hs, "len": L, "etag": et, "lm": "%d.250000000" % LM, "entity_headers": eh, "scripts": [], "extra_polls": 1}
                     out.append(dict(base, id="gl%d" % k, method="GET"))
                     out.append(dict(base, id="gl%d:h" % k, method="HEAD"))
+    # If-Range values that merely contain / resemble the current strong tag (C05: only a byte-identical tag counts)
+    for ir in ('"y", "x"', '"x", "y"', '"x" ', '"x",', '"x"\t', '"x"junk', '"x", W/"x"', '*', '"x\\"'):
+        for rg in ("bytes=0-9", "bytes=0-1,5-6"):
+            k += 1
+            base = {"headers": [("range", rg), ("if-range", ir)], "len": L, "etag": '"x"', "lm": "%d.0" % LM, "entity_headers": [], "scripts": [], "extra_polls": 1}
+            out.append(dict(base, id="gl%d" % k, method="GET"))
+            out.append(dict(base, id="gl%d:h" % k, method="HEAD"))
     for L2 in (0, 1, 2):
         for hs in ([], [("range", "bytes=0-0")], [("range", "items=0-0")], [("range", "bytes=0-0"), ("if-range", '"nomatch"')]):
             k += 1
@@ -794,37 +971,37 @@ def all_serve_oracles(pid, sc, o):
 
 
 def try_upgrade(pid, ob, repo=None):
-    """Look for a concrete failing input for the failed obligation `ob` of property `pid` on the real code."""
-    fam = None
-    best = -1
-    for (unit, fnprefix), v in FAMILIES.items():
-        if ob["unit"] == unit and (ob["fn"] or "").startswith(fnprefix) and len(fnprefix) > best:
-            fam, best = v, len(fnprefix)
-    if fam is None:
+    """Look for a concrete failing input for the failed obligation `ob` of property `pid` on the real code: the
+    scenario family closest to the failing function first, then the other families of the same unit."""
+    cands = sorted(((len(fnprefix), i, v) for i, ((unit, fnprefix), v) in enumerate(FAMILIES.items())
+                    if ob["unit"] == unit), key=lambda x: (not (ob["fn"] or "").startswith(_fam_prefix(x[1])), -x[0]))
+    if not cands:
         ob["native_replay"] = {"status": "no witness family for this obligation", "reproduced": False}
         return
-    test, gen = fam
-    scs = gen()
-    is_stream = test == "stream_witness"
-    mk = stream_line if is_stream else scenario_line
-    lines = run_native(test, [mk(x) for x in scs], repo)
-    if pid == "C15" and not is_stream:
-        byid = {sc["id"]: (sc, parse_obs(ln)) for sc, ln in zip(scs, lines)}
-        for i, (sc, o) in byid.items():
-            if i + ":h" in byid:
-                why = oracle_pair_c15(sc, o, *byid[i + ":h"])
-                if why:
-                    sh = byid[i + ":h"][0]
-                    ob["native_replay"] = {"status": "reproduced on the real code", "reproduced": True, "test": test, "scenario": sh, "scenario_line": mk(sh),
-                                           "paired_with": mk(sc), "violates": pid, "what": why, "searched": len(scs)}
-                    return
-    for sc, ln in zip(scs, lines):
-        why = oracle_stream(pid, sc, parse_stream_obs(ln)) if is_stream else all_serve_oracles(pid, sc, parse_obs(ln))
-        if why:
+    searched, done = 0, []
+    for _, _, fam in cands:
+        if any(fam[1] is d for d in done):
+            continue
+        done.append(fam[1])
+        test, gen = fam
+        scs = gen()
+        searched += len(scs)
+        mk = stream_line if test == "stream_witness" else scenario_line
+        lines = run_native(test, [mk(x) for x in scs], repo)
+        hit = judge(pid, test, scs, lines)
+        if hit:
+            sc, ln, why, paired = hit
             ob["native_replay"] = {"status": "reproduced on the real code", "reproduced": True, "test": test, "scenario": sc, "scenario_line": mk(sc),
-                                   "observation": ln, "violates": pid, "what": why, "searched": len(scs)}
+                                   "observation": ln, "violates": pid, "what": why, "searched": searched}
+            if paired is not None:
+                ob["native_replay"]["paired_with"] = mk(paired)
+                ob["native_replay"]["paired_scenario"] = paired
             return
-    ob["native_replay"] = {"status": "no failing input among %d scenarios" % len(scs), "reproduced": False, "searched": len(scs)}
+    ob["native_replay"] = {"status": "no failing input among %d scenarios" % searched, "reproduced": False, "searched": searched}
+
+
+def _fam_prefix(i):
+    return list(FAMILIES.keys())[i][1]
 
 
 # ---------------------------------------------------------------- FsDir::get path validation (native/dir_witness.rs)
@@ -883,41 +1060,30 @@ def run_paths(pid, repo=None):
 
 
 def fallback(pid, unit, repo=None):
-    if unit == "path":
-        return run_paths(pid, repo)
     """Bounded native stand-in for a unit the verifier could not decide (lost anchor, unsupported construct, rlimit):
     run every witness family of the unit against the real code and apply the oracles of property `pid`.
     Returns a native_replay record for the first violating scenario, or a record with reproduced=False."""
+    if unit == "path":
+        return run_paths(pid, repo)
     gens = []
     for (u, _), (test, gen) in FAMILIES.items():
-        if u == unit and (test, gen) not in gens:
+        if u == unit and not any(gen is g for _, g in gens):
             gens.append((test, gen))
     searched = 0
-    seen_gen = set()
     for test, gen in gens:
-        if id(gen) in seen_gen:
-            continue
-        seen_gen.add(id(gen))
-        probe = {"unit": unit, "fn": None}
         scs = gen()
-        is_stream = test == "stream_witness"
-        mk = stream_line if is_stream else scenario_line
+        mk = stream_line if test == "stream_witness" else scenario_line
         lines = run_native(test, [mk(x) for x in scs], repo)
         searched += len(scs)
-        if pid == "C15" and not is_stream:
-            byid = {sc["id"]: (sc, parse_obs(ln)) for sc, ln in zip(scs, lines)}
-            for i, (sc, o) in byid.items():
-                if i + ":h" in byid:
-                    why = oracle_pair_c15(sc, o, *byid[i + ":h"])
-                    if why:
-                        sh = byid[i + ":h"][0]
-                        return {"status": "reproduced on the real code", "reproduced": True, "test": test, "scenario": sh, "scenario_line": mk(sh),
-                                "paired_with": mk(sc), "violates": pid, "what": why, "searched": searched, "bounded": "witness family %s" % gen.__name__}
-        for sc, ln in zip(scs, lines):
-            why = oracle_stream(pid, sc, parse_stream_obs(ln)) if is_stream else all_serve_oracles(pid, sc, parse_obs(ln))
-            if why:
-                return {"status": "reproduced on the real code", "reproduced": True, "test": test, "scenario": sc, "scenario_line": mk(sc),
-                        "observation": ln, "violates": pid, "what": why, "searched": searched, "bounded": "witness family %s" % getattr(gen, "__name__", "family")}
+        hit = judge(pid, test, scs, lines)
+        if hit:
+            sc, ln, why, paired = hit
+            rec = {"status": "reproduced on the real code", "reproduced": True, "test": test, "scenario": sc, "scenario_line": mk(sc),
+                   "observation": ln, "violates": pid, "what": why, "searched": searched, "bounded": "witness family %s" % getattr(gen, "__name__", "family")}
+            if paired is not None:
+                rec["paired_with"] = mk(paired)
+                rec["paired_scenario"] = paired
+            return rec
     return {"status": "no failing input among %d scenarios" % searched, "reproduced": False, "searched": searched}
 
 
@@ -931,13 +1097,15 @@ def replay_file(path, repo=None):
     if not nr.get("scenario_line"):
         print("no concrete input recorded (no-failing-input-found); the obligation above is the violation")
         return 0
-    ln = run_native(nr["test"], [nr["scenario_line"]], repo)[0]
+    batch = [nr["scenario_line"]] + ([nr["paired_with"]] if nr.get("paired_with") else [])
+    out = run_native(nr["test"], batch, repo)
+    ln = out[0]
     if nr["test"] == "dir_witness":
         why = oracle_path(rec["property"], nr["scenario"], ln.split("|", 1)[1])
-    elif nr["test"] == "stream_witness":
-        why = oracle_stream(rec["property"], nr["scenario"], parse_stream_obs(ln))
     else:
-        why = all_serve_oracles(rec["property"], nr["scenario"], parse_obs(ln))
+        scs = [nr["scenario"]] + ([nr["paired_scenario"]] if nr.get("paired_scenario") else [])
+        hit = judge(rec["property"], nr["test"], scs, out[:len(scs)])
+        why = hit[2] if hit else None
     print("scenario   :", nr["scenario_line"])
     print("observation:", ln)
     if why:
@@ -951,6 +1119,18 @@ if __name__ == "__main__":
     fam = sys.argv[1]
     if fam == "pa":
         print(run_paths("C19"))
+        sys.exit(0)
+    if fam in ("ae", "bd"):
+        scs = fam_accept_encoding() if fam == "ae" else fam_build()
+        lines = run_native("stream_witness", [stream_line(x) for x in scs])
+        bad = 0
+        for pid in ("C15", "C16", "C17"):
+            rest_scs, rest_lines = list(scs), list(lines)
+            hit = judge(pid, "stream_witness", rest_scs, rest_lines)
+            if hit:
+                bad += 1
+                print(pid, hit[2], stream_line(hit[0]), "\n   ", hit[1])
+        print(len(scs), "scenarios; properties with an oracle failure:", bad)
         sys.exit(0)
     if fam in ("st", "dc"):
         scs = fam_stream_ops(int(sys.argv[2]) if len(sys.argv) > 2 else 4) if fam == "st" else fam_stream_disconnect()
